@@ -13,9 +13,12 @@ A parked goroutine is *released* at a site when
   (b) one alternative receives from a quit channel that a `Stop` method closes
       *before* it waits (`closeBeforeWait`), and that close happens no later in
       `ChainService.Stop` than every `Wait` that may be waiting for a goroutine
-      parked in that function (`waitedBy`), or
+      parked in that function (`waitedBy`; a per-response callback of the work
+      manager, and what it calls, is waited for by the work manager's Stop), or
   (c) the (function, channel) pair is in the reviewed table `ShutdownDischarge.discharge`
-      with the reason why the operation cannot park for ever.
+      with the reason why the operation cannot park for ever; a reason of the
+      kind "the channel's capacity covers every send" lives in `capDischarge`
+      and is checked against the regenerated `make(chan …)` rows.
 Core Lean only.
 -/
 import Neutrino.Gen.StopSites
@@ -100,11 +103,20 @@ def resolveChan (fn ch : Nat) : Nat :=
 def compOfRecv (r : Nat) : List String :=
   (comps.filter (fun c => c.recvs.contains r)).map (·.name)
 
+/-- `fn` runs on a worker goroutine of the query work manager according to the extractor: it is registered as the
+`HandleResp` callback of a `query.Request` (the worker calls it synchronously for every message of the peer), or it is
+called directly by such a callback.  Regenerated (`Gen.StopSites.workerCallbacks`, `workerCallbackCallees`), not reviewed:
+whichever struct a callback is a method of, the `Wait` that must be able to finish while it is parked is the work
+manager's. -/
+def onWorker (fn : Nat) : Bool :=
+  workerCallbacks.contains fn || workerCallbackCallees.any (·.2 == fn)
+
 /-- the components whose Wait may be waiting for a goroutine parked in `fn` -/
 def waitedBy (fn recv : Nat) : List String :=
-  match calledFrom.find? (·.1 == fn) with
-  | some e => e.2
-  | none => compOfRecv recv
+  let base := match calledFrom.find? (·.1 == fn) with
+    | some e => e.2
+    | none => compOfRecv recv
+  if onWorker fn && !base.contains "workManager" then "workManager" :: base else base
 
 def compNamed (n : String) : Option Comp := comps.find? (·.name == n)
 def compOfQuit (q : Nat) : Option Comp := comps.find? (·.quit == q)
